@@ -339,22 +339,45 @@ impl Metrics {
     /// (client_sessions per protocol label, outbound_tcp_sockets, outbound_udp_sockets,
     /// inbound bytes per protocol label, outbound bytes per protocol label)
     #[allow(clippy::type_complexity)]
-    pub(crate) fn verif_snapshot(&self) -> (Vec<(String, i64)>, i64, i64, Vec<(String, u64)>, Vec<(String, u64)>) {
+    pub(crate) fn verif_snapshot(
+        &self,
+    ) -> (
+        Vec<(String, i64)>,
+        i64,
+        i64,
+        Vec<(String, u64)>,
+        Vec<(String, u64)>,
+    ) {
         let labels = ["HTTP1", "HTTP2", "HTTP3"];
         (
             labels
                 .iter()
-                .map(|l| (l.to_string(), self.client_sessions.with_label_values(&[l]).get()))
+                .map(|l| {
+                    (
+                        l.to_string(),
+                        self.client_sessions.with_label_values(&[l]).get(),
+                    )
+                })
                 .collect(),
             self.outbound_tcp_sockets.get(),
             self.outbound_udp_sockets.get(),
             labels
                 .iter()
-                .map(|l| (l.to_string(), self.inbound_traffic.with_label_values(&[l]).get()))
+                .map(|l| {
+                    (
+                        l.to_string(),
+                        self.inbound_traffic.with_label_values(&[l]).get(),
+                    )
+                })
                 .collect(),
             labels
                 .iter()
-                .map(|l| (l.to_string(), self.outbound_traffic.with_label_values(&[l]).get()))
+                .map(|l| {
+                    (
+                        l.to_string(),
+                        self.outbound_traffic.with_label_values(&[l]).get(),
+                    )
+                })
                 .collect(),
         )
     }
